@@ -41,6 +41,7 @@ def setup(ctx, mon):
     def on_call_return(frame, ret):
         loc = frame.f_locals
         _T['rs'] = list(loc.get('rs') or [])
+        _T['bs'] = [np.array(b_, copy=True) for b_ in (loc.get('bs') or [])]
         _T['converged'] = bool(loc.get('converged'))
         _T['i'] = int(loc.get('i', -1))
         _T['max_iter'] = int(getattr(loc.get('self'), 'max_iter', -1))
@@ -147,6 +148,13 @@ def cases(rng, tier, shard, nshards):
             yield dict(family='inv_close', tree=('div', ('c', 1.0), ('sub', bt, ('x',))), singularity=[float(bc.real), float(bc.imag) if z0[1] else 0.0],
                        z0=z0, n=int(rng.integers(13, 28)), r=float(min(dist * rng.uniform(8, 32), 1.0)), step_ratio=None, num_extrap=None,
                        via=str(rng.choice(['taylor', 'derivative', 'Taylor'])))
+            continue
+        if rng.random() < 0.04:
+            # high order from a very small initial radius with a fast-growing search: on the first circles b_k r^-k overflows for
+            # the high k (those entries carry nothing), the later circles must decide those coefficients
+            yield dict(family=fam, tree=tree, singularity=sing, z0=z0, n=int(rng.integers(70, 101)),
+                       r=float(10.0 ** rng.uniform(-5, -4.3)), step_ratio=float(np.round(rng.uniform(2.0, 3.0), 2)),
+                       num_extrap=None, via=str(rng.choice(['taylor', 'derivative', 'Taylor'])), overflowing_start=True)
             continue
         if not default_r and rng.random() < 0.2:
             # an initial radius already close to where the search settles, with the shortest extrapolation: the search ends after
@@ -263,7 +271,7 @@ def run_case(case, ctx):
                         pass
                     _T.clear()
                 coefs, info = tobj(z0_given)
-            elif case['r'] is not None and case['step_ratio'] is not None and not case.get('max_iter') and (case['n'] + int(abs(case['z0'][0]) * 10)) % 3 == 0:
+            elif case['r'] is not None and case['step_ratio'] is not None and case['num_extrap'] is not None and not case.get('max_iter') and (case['n'] + int(abs(case['z0'][0]) * 10)) % 3 == 0:
                 # the documented signature taylor(fun, z0, n, r, num_extrap, step_ratio) used positionally
                 ctx.count('taylor_arguments_given_positionally')
                 coefs, info = fb.taylor(f, z0_given, n_given, case['r'], case['num_extrap'], case['step_ratio'], full_output=True)
@@ -373,7 +381,8 @@ def run_case(case, ctx):
                    reported_error_is_zero=bool(err[kk] == 0), k_is_power_of_two=bool(kk >= 8 and (kk & (kk - 1)) == 0),
                    coefficient_vanished=bool(abs(complex(coefs[kk])) <= 1e-6 * abs(at['expected'])
                                              and err[kk] <= 1e-1 * abs(at['expected'])),
-                   k_is_multiple_of_eighth_of_fft_length=bool(kk > 0 and kk % max(len(coefs) // 8, 1) == 0))
+                   k_is_multiple_of_eighth_of_fft_length=bool(kk > 0 and kk % max(len(coefs) // 8, 1) == 0),
+                   table_holds_a_zero_where_the_scaling_overflowed=_zero_where_overflow(kk))
         return
     rb = 0 if case['r'] is None else int(math.floor(math.log10(case['r'])))
     ctx.nontrivial((case['family'], n // 10, rb, bool(case['z0'][1])))
@@ -382,13 +391,27 @@ def run_case(case, ctx):
                         reported_error=err[:4], final_radius=float(info.final_radius), iterations=int(info.iterations)))
 
 
+def _zero_where_overflow(k):
+    """The observed table of scaled FFT bins (one row per circle) holds an exact zero for coefficient k on a circle whose r**-k is
+    not finite."""
+    rs, bs = _T.get('rs') or [], _T.get('bs') or []
+    with np.errstate(all='ignore'):
+        for r_, b_ in zip(rs, bs):
+            if k < len(b_) and b_[k] == 0 and not np.isfinite(np.power(float(r_), -float(k))):
+                return True
+    return False
+
+
 def classify(wit):
     f = wit.get('facts') or {}
     if f.get('initial_radius_beyond_nearest_singularity') and f.get('coefficient_vanished'):
         # not the listed mechanism: the early radii are not small (their bins hold garbage of the size of f, not zeros); a coefficient
         # that vanished here was taken from a circle that encloses the singularity
         return None
-    if wit.get('check') == 'coefficient_outside_reported_error' and f.get('coefficient_vanished'):
+    if wit.get('check') == 'coefficient_outside_reported_error' and f.get('coefficient_vanished') \
+            and not f.get('table_holds_a_zero_where_the_scaling_overflowed'):
+        # (bins that are numerically zero on small circles; a zero in the table on a circle where r**-k is inf is something else:
+        # 0 * inf and noise * inf are nan and inf, which the selection skips)
         return 'fft-bin-exact-zero-on-early-radii'
     if wit.get('check') == 'coefficient_outside_reported_error' and f.get('radius_search_went_beyond_nearest_singularity'):
         return 'radius-search-crosses-singularity'
